@@ -322,7 +322,7 @@ input::
                 self._evalmon = monitor #FIXME: need .prepend(current)
         else:
             raise TypeError("'%s' is not a monitor instance" % monitor)
-        self._live = False # rebind the monitor to the objective at next Step
+        self._update_objective() # rebind the monitor to the objective at next Step
         return
 
     def SetStrictRanges(self, min=None, max=None, **kwds):
